@@ -38,7 +38,10 @@ use crate::config::{SourceConfig, SynchronizationConfig};
 use crate::packet::v5::extension_fields::{ReferenceIdRequest, ReferenceIdResponse};
 use crate::packet::v5::server_reference_id::verif_probe::gk as pb;
 use crate::packet::v5::server_reference_id::{BloomFilter, RemoteBloomFilter, ServerId};
-use crate::server::{FilterAction, FilterList, IpSubnet, Server, ServerAction, ServerConfig, ServerReason, ServerResponse, ServerStatHandler};
+use crate::server::{
+    FilterAction, FilterList, IpSubnet, Server, ServerAction, ServerConfig, ServerReason,
+    ServerResponse, ServerStatHandler,
+};
 use crate::source::verif_probe::gk as ps;
 use crate::source::{NtpSource, NtpSourceAction, ProtocolVersion};
 use crate::system::{NtpManager, NtpServerInfo, NtpSnapshot, TimeSnapshot};
@@ -70,8 +73,16 @@ const ID_C: [u16; 10] = [0, 1, 2, 3, 4, 7, 8, 9, 10, 11];
 
 /// (name, filter, ids that were added)
 fn server_filters() -> Vec<(&'static str, BloomFilter, Vec<[u16; 10]>)> {
-    let mut v = vec![("synthetic", pb::filter_from_bytes(synthetic_bytes()), vec![])];
-    for (name, ids) in [("id1", vec![ID_A]), ("id2", vec![ID_A, ID_B]), ("id3", vec![ID_A, ID_B, ID_C])] {
+    let mut v = vec![(
+        "synthetic",
+        pb::filter_from_bytes(synthetic_bytes()),
+        vec![],
+    )];
+    for (name, ids) in [
+        ("id1", vec![ID_A]),
+        ("id2", vec![ID_A, ID_B]),
+        ("id3", vec![ID_A, ID_B, ID_C]),
+    ] {
         let mut f = BloomFilter::new();
         for i in &ids {
             f.add_id(&pb::server_id(*i));
@@ -92,8 +103,16 @@ fn part_new(ctx: &Ctx) {
         let want = cs >= 4 && cs <= 512 && cs % 4 == 0 && 512 % cs == 0;
         match common::catch(|| RemoteBloomFilter::new(cs).is_some()) {
             Ok(g) if g == want => valid += g as u64,
-            Ok(g) => ctx.violation("C34:chunk-size-validation", format!("RemoteBloomFilter::new({cs}) accepted={g}, expected {want}"), format!("N;{cs}")),
-            Err(e) => ctx.violation("C34:panic", format!("RemoteBloomFilter::new({cs}) panicked: {e}"), format!("N;{cs}")),
+            Ok(g) => ctx.violation(
+                "C34:chunk-size-validation",
+                format!("RemoteBloomFilter::new({cs}) accepted={g}, expected {want}"),
+                format!("N;{cs}"),
+            ),
+            Err(e) => ctx.violation(
+                "C34:panic",
+                format!("RemoteBloomFilter::new({cs}) panicked: {e}"),
+                format!("N;{cs}"),
+            ),
         }
     }
     ctx.set("valid_chunk_sizes", valid);
@@ -174,7 +193,11 @@ fn event_name(e: u8) -> String {
     } else {
         let t = ((e - 1) as usize) / SHAPES;
         let s = ((e - 1) as usize) % SHAPES;
-        format!("Deliver({},{})", ["current", "stale", "first", "fresh"][t], shape_name(s))
+        format!(
+            "Deliver({},{})",
+            ["current", "stale", "first", "fresh"][t],
+            shape_name(s)
+        )
     }
 }
 
@@ -212,7 +235,8 @@ fn apply(sc: &SearchCtx, s: &S, e: u8, obs: Option<&mut Vec<String>>) -> Option<
         let r = match common::catch(|| real.next_request(pb::cookie(cookie))) {
             Ok(r) => r,
             Err(err) => {
-                sc.ctx.violation("C34:panic", format!("next_request panicked: {err}"), tr());
+                sc.ctx
+                    .violation("C34:panic", format!("next_request panicked: {err}"), tr());
                 return None;
             }
         };
@@ -227,7 +251,10 @@ fn apply(sc: &SearchCtx, s: &S, e: u8, obs: Option<&mut Vec<String>>) -> Option<
         if let Some(old) = m.outstanding.take() {
             m.stale = Some(old);
         }
-        let rq = Req { offset: m.next, cookie };
+        let rq = Req {
+            offset: m.next,
+            cookie,
+        };
         if m.first.is_none() {
             m.first = Some(rq.clone());
         }
@@ -253,7 +280,10 @@ fn apply(sc: &SearchCtx, s: &S, e: u8, obs: Option<&mut Vec<String>>) -> Option<
                 }
                 f
             }
-            _ => Req { offset: 0, cookie: u64::MAX - 7 },
+            _ => Req {
+                offset: 0,
+                cookie: u64::MAX - 7,
+            },
         };
         // an honest server's answer to `target`: the bytes at the target's offset
         let start = target.offset as usize;
@@ -265,18 +295,33 @@ fn apply(sc: &SearchCtx, s: &S, e: u8, obs: Option<&mut Vec<String>>) -> Option<
         }
         let resp = ReferenceIdResponse::decode(&bytes);
         let expect_accept = t == 0 && shape == 0;
-        let got = match common::catch(|| real.handle_response(pb::cookie(target.cookie), &resp).is_ok()) {
+        let got = match common::catch(|| {
+            real.handle_response(pb::cookie(target.cookie), &resp)
+                .is_ok()
+        }) {
             Ok(g) => g,
             Err(err) => {
-                sc.ctx.violation("C34:panic", format!("handle_response panicked: {err}"), tr());
+                sc.ctx.violation(
+                    "C34:panic",
+                    format!("handle_response panicked: {err}"),
+                    tr(),
+                );
                 return None;
             }
         };
-        note = format!("{} -> {}", event_name(e), if got { "accepted" } else { "rejected" });
+        note = format!(
+            "{} -> {}",
+            event_name(e),
+            if got { "accepted" } else { "rejected" }
+        );
         let side = if got { &sc.accepted } else { &sc.rejected };
         side.fetch_add(1, Ordering::Relaxed);
         if got && !expect_accept {
-            let class = if t != 0 { "C34:stale-answer-accepted" } else { "C34:wrong-size-accepted" };
+            let class = if t != 0 {
+                "C34:stale-answer-accepted"
+            } else {
+                "C34:wrong-size-accepted"
+            };
             sc.ctx.violation(
                 class,
                 format!("chunk size {cs}: answer to the {} request with {len} bytes was accepted (outstanding: {:?})", ["current", "stale", "first", "never issued"][t], m.outstanding),
@@ -306,7 +351,12 @@ fn apply(sc: &SearchCtx, s: &S, e: u8, obs: Option<&mut Vec<String>>) -> Option<
     // compare the whole visible state
     let v = pb::rbf_view(&real);
     if v.filter != m.content {
-        let pos = v.filter.iter().zip(m.content.iter()).position(|(a, b)| a != b).unwrap_or(0);
+        let pos = v
+            .filter
+            .iter()
+            .zip(m.content.iter())
+            .position(|(a, b)| a != b)
+            .unwrap_or(0);
         sc.ctx.violation(
             "C34:chunk-written-wrongly",
             format!("chunk size {cs}: after {} the client's filter differs from what the accepted answers say (first difference at byte {pos})", event_name(e)),
@@ -314,10 +364,22 @@ fn apply(sc: &SearchCtx, s: &S, e: u8, obs: Option<&mut Vec<String>>) -> Option<
         );
         return None;
     }
-    if v.next_to_request != m.next || v.last_requested != m.outstanding.as_ref().map(|r| (r.offset, r.cookie.to_be_bytes())) {
+    if v.next_to_request != m.next
+        || v.last_requested
+            != m.outstanding
+                .as_ref()
+                .map(|r| (r.offset, r.cookie.to_be_bytes()))
+    {
         sc.ctx.violation(
             "C34:request-sequence",
-            format!("chunk size {cs}: after {} cursor/outstanding = {}/{:?}, model {}/{:?}", event_name(e), v.next_to_request, v.last_requested, m.next, m.outstanding),
+            format!(
+                "chunk size {cs}: after {} cursor/outstanding = {}/{:?}, model {}/{:?}",
+                event_name(e),
+                v.next_to_request,
+                v.last_requested,
+                m.next,
+                m.outstanding
+            ),
             tr(),
         );
         return None;
@@ -329,15 +391,31 @@ fn apply(sc: &SearchCtx, s: &S, e: u8, obs: Option<&mut Vec<String>>) -> Option<
             return None;
         }
         (None, true) => {
-            sc.ctx.violation("C34:full-filter-missing", format!("chunk size {cs}: all {} chunks were answered but full_filter() is None", 512 / cs as usize), tr());
+            sc.ctx.violation(
+                "C34:full-filter-missing",
+                format!(
+                    "chunk size {cs}: all {} chunks were answered but full_filter() is None",
+                    512 / cs as usize
+                ),
+                tr(),
+            );
             return None;
         }
         _ => {}
     }
     if let Some(o) = obs {
-        o.push(format!("{note} next={} filled={} full={}", v.next_to_request, v.is_filled, full.is_some()));
+        o.push(format!(
+            "{note} next={} filled={} full={}",
+            v.next_to_request,
+            v.is_filled,
+            full.is_some()
+        ));
     }
-    Some(S { real, model: m, hist })
+    Some(S {
+        real,
+        model: m,
+        hist,
+    })
 }
 
 #[derive(PartialEq, Eq, Hash)]
@@ -390,7 +468,16 @@ fn key(s: &S) -> Key {
 fn initial(cs: u16) -> S {
     S {
         real: RemoteBloomFilter::new(cs).expect("valid chunk size"),
-        model: Model { next: 0, outstanding: None, content: vec![0; 512], filled: false, stale: None, first: None, next_cookie: 1, accepted: 0 },
+        model: Model {
+            next: 0,
+            outstanding: None,
+            content: vec![0; 512],
+            filled: false,
+            stale: None,
+            first: None,
+            next_cookie: 1,
+            accepted: 0,
+        },
         hist: vec![],
     }
 }
@@ -398,14 +485,26 @@ fn initial(cs: u16) -> S {
 fn part_search(ctx: &Ctx) {
     let filters = server_filters();
     let sizes: Vec<u16> = VALID_SIZES.to_vec();
-    let jobs: Vec<(u16, usize)> = sizes.iter().flat_map(|cs| (0..filters.len()).map(move |f| (*cs, f))).collect();
+    let jobs: Vec<(u16, usize)> = sizes
+        .iter()
+        .flat_map(|cs| (0..filters.len()).map(move |f| (*cs, f)))
+        .collect();
     let states = AtomicU64::new(0);
     let transitions = AtomicU64::new(0);
     let depth = AtomicU64::new(0);
     common::par_for(jobs.len() as u64, 1, |j| {
         let (cs, fi) = jobs[j as usize];
         let (fname, server, ids) = &filters[fi];
-        let sc = SearchCtx { ctx, cs, server, fname, transitions: AtomicU64::new(0), accepted: AtomicU64::new(0), rejected: AtomicU64::new(0), completions: AtomicU64::new(0) };
+        let sc = SearchCtx {
+            ctx,
+            cs,
+            server,
+            fname,
+            transitions: AtomicU64::new(0),
+            accepted: AtomicU64::new(0),
+            rejected: AtomicU64::new(0),
+            completions: AtomicU64::new(0),
+        };
         let stats = common::bfs(
             vec![initial(cs)],
             key,
@@ -431,18 +530,28 @@ fn part_search(ctx: &Ctx) {
             4096,
         );
         if !stats.fixpoint {
-            ctx.cap_hit(&format!("chunk size {cs}/{fname}: BFS stopped at depth 4096 without reaching the fixpoint"));
+            ctx.cap_hit(&format!(
+                "chunk size {cs}/{fname}: BFS stopped at depth 4096 without reaching the fixpoint"
+            ));
         }
         states.fetch_add(stats.states, Ordering::Relaxed);
         transitions.fetch_add(sc.transitions.load(Ordering::Relaxed), Ordering::Relaxed);
         depth.fetch_max(stats.max_depth, Ordering::Relaxed);
         ctx.add("answers_accepted", sc.accepted.load(Ordering::Relaxed));
         ctx.add("answers_rejected", sc.rejected.load(Ordering::Relaxed));
-        ctx.add("transfers_completed_first_time", sc.completions.load(Ordering::Relaxed));
+        ctx.add(
+            "transfers_completed_first_time",
+            sc.completions.load(Ordering::Relaxed),
+        );
         ctx.add(&format!("states_chunk_{cs}"), stats.states);
         ctx.distinct(common::hash_of(&("S", cs, fname)));
         if fi == 0 {
-            ctx.sample(format!("chunk size {cs}, {fname} filter: {} states, {} transitions, fixpoint at depth {}", stats.states, sc.transitions.load(Ordering::Relaxed), stats.max_depth));
+            ctx.sample(format!(
+                "chunk size {cs}, {fname} filter: {} states, {} transitions, fixpoint at depth {}",
+                stats.states,
+                sc.transitions.load(Ordering::Relaxed),
+                stats.max_depth
+            ));
         }
     });
     ctx.add("states", states.load(Ordering::Relaxed));
@@ -454,18 +563,32 @@ fn part_search(ctx: &Ctx) {
 
 fn replay_search(ctx: &Ctx, cs: u16, fname: &str, events: &[u8]) -> String {
     let filters = server_filters();
-    let Some((name, server, _)) = filters.iter().find(|f| f.0 == fname) else { return "unknown filter".into() };
+    let Some((name, server, _)) = filters.iter().find(|f| f.0 == fname) else {
+        return "unknown filter".into();
+    };
     if !VALID_SIZES.contains(&cs) {
         return "invalid chunk size".into();
     }
-    let sc = SearchCtx { ctx, cs, server, fname: name, transitions: AtomicU64::new(0), accepted: AtomicU64::new(0), rejected: AtomicU64::new(0), completions: AtomicU64::new(0) };
+    let sc = SearchCtx {
+        ctx,
+        cs,
+        server,
+        fname: name,
+        transitions: AtomicU64::new(0),
+        accepted: AtomicU64::new(0),
+        rejected: AtomicU64::new(0),
+        completions: AtomicU64::new(0),
+    };
     let mut s = initial(cs);
     let mut obs = Vec::new();
     for &e in events {
         match apply(&sc, &s, e, Some(&mut obs)) {
             Some(n) => s = n,
             None => {
-                obs.push(format!("{} -> stop (not applicable or violation)", event_name(e)));
+                obs.push(format!(
+                    "{} -> stop (not applicable or violation)",
+                    event_name(e)
+                ));
                 break;
             }
         }
@@ -486,17 +609,36 @@ fn part_membership(ctx: &Ctx) {
         let mut f = BloomFilter::new();
         ctx.add("evaluations", 4);
         if f.contains_id(&id) {
-            ctx.violation("C34:membership-wrong", format!("empty filter reports id {idx:?}"), format!("M;{i}"));
+            ctx.violation(
+                "C34:membership-wrong",
+                format!("empty filter reports id {idx:?}"),
+                format!("M;{i}"),
+            );
         }
         f.add_id(&id);
         if !f.contains_id(&id) {
-            ctx.violation("C34:false-negative", format!("filter does not report the id {idx:?} just added"), format!("M;{i}"));
+            ctx.violation(
+                "C34:false-negative",
+                format!("filter does not report the id {idx:?} just added"),
+                format!("M;{i}"),
+            );
         }
         if f.count_ones() != 10 || f.as_bytes().iter().map(|b| b.count_ones()).sum::<u32>() != 10 {
-            ctx.violation("C34:membership-wrong", format!("adding an id with 10 distinct indices set {} bits", f.count_ones()), format!("M;{i}"));
+            ctx.violation(
+                "C34:membership-wrong",
+                format!(
+                    "adding an id with 10 distinct indices set {} bits",
+                    f.count_ones()
+                ),
+                format!("M;{i}"),
+            );
         }
         if f.contains_id(&pb::server_id(next)) {
-            ctx.violation("C34:membership-wrong", format!("filter with only {idx:?} reports {next:?}"), format!("M;{i}"));
+            ctx.violation(
+                "C34:membership-wrong",
+                format!("filter with only {idx:?} reports {next:?}"),
+                format!("M;{i}"),
+            );
         }
     }
     // (b) subsets of a pool
@@ -504,14 +646,14 @@ fn part_membership(ctx: &Ctx) {
         ID_A,
         ID_B,
         ID_C,
-        [5, 100, 333, 777, 1024, 2047, 2048, 3000, 4000, 4092],          // shares 9 indices with ID_A
-        [5, 100, 333, 777, 1024, 2046, 2049, 3001, 4001, 4094],          // half ID_A, half ID_B: covered by {A, B}
+        [5, 100, 333, 777, 1024, 2047, 2048, 3000, 4000, 4092], // shares 9 indices with ID_A
+        [5, 100, 333, 777, 1024, 2046, 2049, 3001, 4001, 4094], // half ID_A, half ID_B: covered by {A, B}
         [4086, 4087, 4088, 4089, 4090, 4091, 4092, 4093, 4094, 4095],
         [0, 2, 4, 6, 8, 10, 12, 14, 16, 18],
         [0, 1, 2, 3, 4, 5, 6, 7, 4088, 4095],
-        [5, 5, 5, 5, 5, 5, 5, 5, 5, 5],                                  // degenerate (never produced by ServerId::new)
-        [7, 15, 23, 31, 39, 47, 55, 63, 71, 79],                         // top bit of ten consecutive bytes
-        [8, 16, 24, 32, 40, 48, 56, 64, 72, 80],                         // bottom bit of ten consecutive bytes
+        [5, 5, 5, 5, 5, 5, 5, 5, 5, 5], // degenerate (never produced by ServerId::new)
+        [7, 15, 23, 31, 39, 47, 55, 63, 71, 79], // top bit of ten consecutive bytes
+        [8, 16, 24, 32, 40, 48, 56, 64, 72, 80], // bottom bit of ten consecutive bytes
         [1000, 1001, 1002, 1003, 1004, 1005, 1006, 1007, 1008, 1009],
     ];
     let n = pool.len();
@@ -546,19 +688,40 @@ fn part_membership(ctx: &Ctx) {
         for p_ in &parts {
             via_add.add(p_);
         }
-        let tr = format!("P;{}", sub.iter().map(|k| k.to_string()).collect::<Vec<_>>().join(","));
+        let tr = format!(
+            "P;{}",
+            sub.iter()
+                .map(|k| k.to_string())
+                .collect::<Vec<_>>()
+                .join(",")
+        );
         ctx.add("evaluations", 3 + n as u64);
         if via_union != f || via_collect != f || via_add != f {
             ctx.violation("C34:union-wrong", format!("union of the single-id filters of {sub:?} differs from adding the ids to one filter"), tr.clone());
         }
         if f.count_ones() as usize != union.len() {
-            ctx.violation("C34:membership-wrong", format!("ids {sub:?}: {} bits set for {} distinct indices", f.count_ones(), union.len()), tr.clone());
+            ctx.violation(
+                "C34:membership-wrong",
+                format!(
+                    "ids {sub:?}: {} bits set for {} distinct indices",
+                    f.count_ones(),
+                    union.len()
+                ),
+                tr.clone(),
+            );
         }
         for k in 0..n {
             let want = pool[k].iter().all(|i| union.contains(i));
             let got = f.contains_id(&pb::server_id(pool[k]));
             if sub.contains(&k) && !got {
-                ctx.violation("C34:false-negative", format!("filter built from pool ids {sub:?} does not report id {k} ({:?})", pool[k]), tr.clone());
+                ctx.violation(
+                    "C34:false-negative",
+                    format!(
+                        "filter built from pool ids {sub:?} does not report id {k} ({:?})",
+                        pool[k]
+                    ),
+                    tr.clone(),
+                );
             } else if got != want {
                 ctx.violation("C34:membership-wrong", format!("filter built from pool ids {sub:?}: contains_id(pool {k}) = {got}, index cover says {want}"), tr.clone());
             }
@@ -584,8 +747,16 @@ fn part_membership(ctx: &Ctx) {
         let mut f = BloomFilter::new();
         f.add_id(&id);
         let distinct: BTreeSet<u16> = idx.iter().copied().collect();
-        if !f.contains_id(&id) || distinct.len() != 10 || idx.iter().any(|v| *v > 4095) || f.count_ones() != 10 {
-            ctx.violation("C34:false-negative", format!("generated id {idx:?}: not reported after add / malformed"), "G;0");
+        if !f.contains_id(&id)
+            || distinct.len() != 10
+            || idx.iter().any(|v| *v > 4095)
+            || f.count_ones() != 10
+        {
+            ctx.violation(
+                "C34:false-negative",
+                format!("generated id {idx:?}: not reported after add / malformed"),
+                "G;0",
+            );
         }
     }
 }
@@ -608,11 +779,23 @@ fn part_to_response(ctx: &Ctx) {
         let len = lens[li as usize];
         let mut msg = vec![0u8; len];
         for &off in &offs {
-            let want: Option<&[u8]> = if off as usize + len <= 512 { Some(&bytes[off as usize..off as usize + len]) } else { None };
+            let want: Option<&[u8]> = if off as usize + len <= 512 {
+                Some(&bytes[off as usize..off as usize + len])
+            } else {
+                None
+            };
             // request as the server sees it: decoded from the wire (needs the 2 offset bytes)
             if len >= 2 {
                 msg[0..2].copy_from_slice(&off.to_be_bytes());
-                match common::catch(|| ReferenceIdRequest::decode(&msg).ok().map(|r| (r.offset(), r.payload_len(), r.to_response(&filter).map(|x| x.bytes().to_vec())))) {
+                match common::catch(|| {
+                    ReferenceIdRequest::decode(&msg).ok().map(|r| {
+                        (
+                            r.offset(),
+                            r.payload_len(),
+                            r.to_response(&filter).map(|x| x.bytes().to_vec()),
+                        )
+                    })
+                }) {
                     Ok(Some((o, l, got))) => {
                         if o != off || l as usize != len {
                             ctx.violation("C34:request-decode", format!("decoded request says offset {o} length {l}, wire says {off}/{len}"), format!("T;{len};{off}"));
@@ -627,13 +810,24 @@ fn part_to_response(ctx: &Ctx) {
                         let side = if got.is_some() { &some } else { &none };
                         side.fetch_add(1, Ordering::Relaxed);
                     }
-                    Ok(None) => ctx.violation("C34:request-decode", format!("request body of {len} bytes not decodable"), format!("T;{len};{off}")),
-                    Err(e) => ctx.violation("C34:panic", format!("to_response(offset {off}, length {len}) panicked: {e}"), format!("T;{len};{off}")),
+                    Ok(None) => ctx.violation(
+                        "C34:request-decode",
+                        format!("request body of {len} bytes not decodable"),
+                        format!("T;{len};{off}"),
+                    ),
+                    Err(e) => ctx.violation(
+                        "C34:panic",
+                        format!("to_response(offset {off}, length {len}) panicked: {e}"),
+                        format!("T;{len};{off}"),
+                    ),
                 }
             }
             // request as a client builds it
             if len <= u16::MAX as usize {
-                match common::catch(|| ReferenceIdRequest::new(len as u16, off).map(|r| r.to_response(&filter).map(|x| x.bytes().to_vec()))) {
+                match common::catch(|| {
+                    ReferenceIdRequest::new(len as u16, off)
+                        .map(|r| r.to_response(&filter).map(|x| x.bytes().to_vec()))
+                }) {
                     Ok(Some(got)) => {
                         ctor_some.fetch_add(1, Ordering::Relaxed);
                         if got.as_deref() != want {
@@ -646,7 +840,11 @@ fn part_to_response(ctx: &Ctx) {
                             ctx.violation("C34:request-constructor", format!("ReferenceIdRequest::new({len}, {off}) refused a valid chunk request"), format!("T;{len};{off}"));
                         }
                     }
-                    Err(e) => ctx.violation("C34:panic", format!("ReferenceIdRequest::new({len}, {off}) panicked: {e}"), format!("T;{len};{off}")),
+                    Err(e) => ctx.violation(
+                        "C34:panic",
+                        format!("ReferenceIdRequest::new({len}, {off}) panicked: {e}"),
+                        format!("T;{len};{off}"),
+                    ),
                 }
             }
         }
@@ -654,7 +852,10 @@ fn part_to_response(ctx: &Ctx) {
     });
     ctx.set("server_slices_answered", some.load(Ordering::Relaxed));
     ctx.set("server_slices_refused", none.load(Ordering::Relaxed));
-    ctx.set("client_requests_constructed", ctor_some.load(Ordering::Relaxed));
+    ctx.set(
+        "client_requests_constructed",
+        ctor_some.load(Ordering::Relaxed),
+    );
 }
 
 // ---------------------------------------------------------------------------------
@@ -708,13 +909,32 @@ impl ServerStatHandler for NoStats {
 
 fn make_server(filter: BloomFilter) -> Server<FixedClock> {
     let info = Arc::new(RwLock::new(NtpServerInfo {
-        time_snapshot: TimeSnapshot { leap_indicator: NtpLeapIndicator::NoWarning, ..TimeSnapshot::default() },
-        ntp_snapshot: NtpSnapshot { stratum: 2, reference_id: crate::identifiers::ReferenceId::NONE, bloom_filter: filter },
+        time_snapshot: TimeSnapshot {
+            leap_indicator: NtpLeapIndicator::NoWarning,
+            ..TimeSnapshot::default()
+        },
+        ntp_snapshot: NtpSnapshot {
+            stratum: 2,
+            reference_id: crate::identifiers::ReferenceId::NONE,
+            bloom_filter: filter,
+        },
     }));
     let config = ServerConfig {
-        denylist: FilterList { filter: vec![], action: FilterAction::Deny },
+        denylist: FilterList {
+            filter: vec![],
+            action: FilterAction::Deny,
+        },
         allowlist: FilterList {
-            filter: vec![IpSubnet { addr: IpAddr::V4(Ipv4Addr::UNSPECIFIED), mask: 0 }, IpSubnet { addr: IpAddr::V6(Ipv6Addr::UNSPECIFIED), mask: 0 }],
+            filter: vec![
+                IpSubnet {
+                    addr: IpAddr::V4(Ipv4Addr::UNSPECIFIED),
+                    mask: 0,
+                },
+                IpSubnet {
+                    addr: IpAddr::V6(Ipv6Addr::UNSPECIFIED),
+                    mask: 0,
+                },
+            ],
             action: FilterAction::Ignore,
         },
         rate_limiting_cache_size: 0,
@@ -757,14 +977,24 @@ fn poll_request(src: &mut NtpSource<NullCtl>) -> Option<Vec<u8>> {
 
 fn serve(server: &mut Server<FixedClock>, req: &[u8]) -> Option<Vec<u8>> {
     let mut buf = vec![0u8; req.len().max(48)];
-    match server.handle(IpAddr::V4(Ipv4Addr::new(192, 0, 2, 17)), NtpTimestamp::from_fixed_int(0xE000_0000_0000_0200), req, &mut buf, &mut NoStats) {
+    match server.handle(
+        IpAddr::V4(Ipv4Addr::new(192, 0, 2, 17)),
+        NtpTimestamp::from_fixed_int(0xE000_0000_0000_0200),
+        req,
+        &mut buf,
+        &mut NoStats,
+    ) {
         ServerAction::Respond { message } => Some(message.to_vec()),
         ServerAction::Ignore => None,
     }
 }
 
 fn deliver_raw(src: &mut NtpSource<NullCtl>, resp: &[u8]) {
-    for _ in src.handle_incoming(resp, NtpTimestamp::from_fixed_int(0xE000_0000_0000_0100), NtpTimestamp::from_fixed_int(0xE000_0000_0000_0400)) {}
+    for _ in src.handle_incoming(
+        resp,
+        NtpTimestamp::from_fixed_int(0xE000_0000_0000_0100),
+        NtpTimestamp::from_fixed_int(0xE000_0000_0000_0400),
+    ) {}
 }
 
 std::thread_local! {
@@ -814,18 +1044,38 @@ fn resize_lengths() -> Vec<usize> {
 /// the fresh one, 3 = fresh answer delivered twice, 100 + L = the fresh answer's chunk field
 /// re-framed to carry L bytes instead of 16 (the rest of the datagram is genuine)
 fn run_e2e(ctx: &Ctx, devs: &[(usize, u8)], polls: usize) -> String {
-    let trace = format!("E;{polls};{}", devs.iter().map(|(p_, k)| format!("{p_}:{k}")).collect::<Vec<_>>().join(","));
+    let trace = format!(
+        "E;{polls};{}",
+        devs.iter()
+            .map(|(p_, k)| format!("{p_}:{k}"))
+            .collect::<Vec<_>>()
+            .join(",")
+    );
     let filter = pb::filter_from_bytes(synthetic_bytes());
     let mut server = make_server(filter);
-    let mgr = NtpManager::new(SynchronizationConfig::default(), vec![IpAddr::V4(Ipv4Addr::new(192, 0, 2, 17))].into());
-    let (mut src, _) = mgr.new_source(SocketAddr::new(IpAddr::V4(Ipv4Addr::new(198, 51, 100, 9)), 123), SourceConfig::default(), ProtocolVersion::V5, NullCtl, None, ClockId::new());
+    let mgr = NtpManager::new(
+        SynchronizationConfig::default(),
+        vec![IpAddr::V4(Ipv4Addr::new(192, 0, 2, 17))].into(),
+    );
+    let (mut src, _) = mgr.new_source(
+        SocketAddr::new(IpAddr::V4(Ipv4Addr::new(198, 51, 100, 9)), 123),
+        SourceConfig::default(),
+        ProtocolVersion::V5,
+        NullCtl,
+        None,
+        ClockId::new(),
+    );
     let mut answered = 0usize;
     let mut prev_resp: Option<Vec<u8>> = None;
     let mut obs = String::new();
     let mut last_resized: Option<usize> = None;
     E2E_PANIC.with(|p_| *p_.borrow_mut() = None);
     for i in 0..polls {
-        let kind = devs.iter().find(|(p_, _)| *p_ == i).map(|(_, k)| *k).unwrap_or(0);
+        let kind = devs
+            .iter()
+            .find(|(p_, _)| *p_ == i)
+            .map(|(_, k)| *k)
+            .unwrap_or(0);
         let Some(req) = poll_request(&mut src) else {
             obs.push('R');
             break;
@@ -847,7 +1097,10 @@ fn run_e2e(ctx: &Ctx, devs: &[(usize, u8)], polls: usize) -> String {
             }
         }
         last_resized = None;
-        if rq.len() != 1 || rq[0].2 - rq[0].1 != 16 || u16::from_be_bytes([req[rq[0].1], req[rq[0].1 + 1]]) != want_off {
+        if rq.len() != 1
+            || rq[0].2 - rq[0].1 != 16
+            || u16::from_be_bytes([req[rq[0].1], req[rq[0].1 + 1]]) != want_off
+        {
             ctx.violation(
                 "C34:request-sequence",
                 format!("poll {i}: datagram carries {} chunk requests{}; expected one for offset {want_off} length 16", rq.len(), rq.first().map(|r| format!(" (offset {} length {})", u16::from_be_bytes([req[r.1], req[r.1 + 1]]), r.2 - r.1)).unwrap_or_default()),
@@ -858,7 +1111,11 @@ fn run_e2e(ctx: &Ctx, devs: &[(usize, u8)], polls: usize) -> String {
         let resp = serve(&mut server, &req);
         match (&resp, kind) {
             (None, _) => {
-                ctx.violation("C34:server-refuses-valid-chunk", format!("poll {i}: the server ignored a well-formed NTPv5 poll"), &trace);
+                ctx.violation(
+                    "C34:server-refuses-valid-chunk",
+                    format!("poll {i}: the server ignored a well-formed NTPv5 poll"),
+                    &trace,
+                );
                 return obs;
             }
             (Some(_), 1) => obs.push('l'),
@@ -881,7 +1138,11 @@ fn run_e2e(ctx: &Ctx, devs: &[(usize, u8)], polls: usize) -> String {
                 match resize_chunk(r, want_off as usize, l) {
                     Some(m) => deliver(&mut src, &m),
                     None => {
-                        ctx.violation("C34:server-slice-wrong", format!("poll {i}: answer carries no chunk field"), &trace);
+                        ctx.violation(
+                            "C34:server-slice-wrong",
+                            format!("poll {i}: answer carries no chunk field"),
+                            &trace,
+                        );
                         return obs;
                     }
                 }
@@ -899,13 +1160,24 @@ fn run_e2e(ctx: &Ctx, devs: &[(usize, u8)], polls: usize) -> String {
             let chunk: Vec<_> = walk_efs(r).into_iter().filter(|e| e.0 == T_RESP).collect();
             let o = want_off as usize;
             if chunk.len() != 1 || r[chunk[0].1..chunk[0].2] != synthetic_bytes()[o..o + 16] {
-                ctx.violation("C34:server-slice-wrong", format!("poll {i}: answer does not carry exactly bytes {o}..{} of the filter", o + 16), &trace);
+                ctx.violation(
+                    "C34:server-slice-wrong",
+                    format!(
+                        "poll {i}: answer does not carry exactly bytes {o}..{} of the filter",
+                        o + 16
+                    ),
+                    &trace,
+                );
                 return obs;
             }
         }
         prev_resp = resp;
         if let Some(e) = E2E_PANIC.with(|p_| p_.borrow_mut().take()) {
-            ctx.violation("C34:panic", format!("poll {i}: the source panicked while handling a server answer: {e}"), &trace);
+            ctx.violation(
+                "C34:panic",
+                format!("poll {i}: the source panicked while handling a server answer: {e}"),
+                &trace,
+            );
             return obs;
         }
         let v = ps::view(&src);
@@ -929,7 +1201,9 @@ fn run_e2e(ctx: &Ctx, devs: &[(usize, u8)], polls: usize) -> String {
 fn part_e2e(ctx: &Ctx) {
     let polls = 36usize;
     let maxdev = if ctx.quick() { 2 } else { 3 };
-    let slots: Vec<(usize, u8)> = (0..polls).flat_map(|p_| (1..=3u8).map(move |k| (p_, k))).collect();
+    let slots: Vec<(usize, u8)> = (0..polls)
+        .flat_map(|p_| (1..=3u8).map(move |k| (p_, k)))
+        .collect();
     let mut runs: Vec<Vec<(usize, u8)>> = vec![vec![]];
     for a in 0..slots.len() {
         runs.push(vec![slots[a]]);
@@ -982,7 +1256,13 @@ fn part_e2e(ctx: &Ctx) {
     common::par_for_with(
         runs.len() as u64,
         16,
-        || tokio::runtime::Builder::new_current_thread().enable_time().start_paused(true).build().expect("runtime"),
+        || {
+            tokio::runtime::Builder::new_current_thread()
+                .enable_time()
+                .start_paused(true)
+                .build()
+                .expect("runtime")
+        },
         |rt, i| {
             let devs = &runs[i as usize];
             let o = rt.block_on(async { run_e2e(ctx, devs, polls) });
@@ -995,7 +1275,10 @@ fn part_e2e(ctx: &Ctx) {
             }
         },
     );
-    ctx.set("e2e_runs_reaching_full_filter", completed.load(Ordering::Relaxed));
+    ctx.set(
+        "e2e_runs_reaching_full_filter",
+        completed.load(Ordering::Relaxed),
+    );
 }
 
 /// hand-framed chunk requests sent to the real server
@@ -1004,8 +1287,18 @@ fn part_server_wire(ctx: &Ctx) {
     let bytes = synthetic_bytes();
     // a genuine NTPv5 poll as template; its chunk request is the last extension field
     let template = super::block_on_paused(async {
-        let mgr = NtpManager::new(SynchronizationConfig::default(), vec![IpAddr::V4(Ipv4Addr::new(192, 0, 2, 17))].into());
-        let (mut src, _) = mgr.new_source(SocketAddr::new(IpAddr::V4(Ipv4Addr::new(198, 51, 100, 9)), 123), SourceConfig::default(), ProtocolVersion::V5, NullCtl, None, ClockId::new());
+        let mgr = NtpManager::new(
+            SynchronizationConfig::default(),
+            vec![IpAddr::V4(Ipv4Addr::new(192, 0, 2, 17))].into(),
+        );
+        let (mut src, _) = mgr.new_source(
+            SocketAddr::new(IpAddr::V4(Ipv4Addr::new(198, 51, 100, 9)), 123),
+            SourceConfig::default(),
+            ProtocolVersion::V5,
+            NullCtl,
+            None,
+            ClockId::new(),
+        );
         poll_request(&mut src).expect("poll")
     });
     let efs = walk_efs(&template);
@@ -1034,16 +1327,25 @@ fn part_server_wire(ctx: &Ctx) {
             let tr = format!("W;{len};{off}");
             let in_range = off as usize + len <= 512;
             match common::catch(|| serve(&mut server, &req)) {
-                Err(e) => ctx.violation("C34:panic", format!("server panicked on a chunk request offset {off} length {len}: {e}"), tr),
+                Err(e) => ctx.violation(
+                    "C34:panic",
+                    format!("server panicked on a chunk request offset {off} length {len}: {e}"),
+                    tr,
+                ),
                 Ok(None) => {
                     ignored.fetch_add(1, Ordering::Relaxed);
                     // extension fields shorter than 16 octets are not valid NTP extension fields at all
                     if in_range && len + 4 >= 16 {
-                        ctx.violation("C34:server-refuses-valid-chunk", format!("server ignored a poll asking for offset {off} length {len}"), tr);
+                        ctx.violation(
+                            "C34:server-refuses-valid-chunk",
+                            format!("server ignored a poll asking for offset {off} length {len}"),
+                            tr,
+                        );
                     }
                 }
                 Ok(Some(r)) => {
-                    let chunk: Vec<_> = walk_efs(&r).into_iter().filter(|e| e.0 == T_RESP).collect();
+                    let chunk: Vec<_> =
+                        walk_efs(&r).into_iter().filter(|e| e.0 == T_RESP).collect();
                     match chunk.len() {
                         0 => {
                             without.fetch_add(1, Ordering::Relaxed);
@@ -1059,14 +1361,24 @@ fn part_server_wire(ctx: &Ctx) {
                                 exact.fetch_add(1, Ordering::Relaxed);
                             }
                         }
-                        k => ctx.violation("C34:server-slice-wrong", format!("server answered one chunk request with {k} chunk fields"), tr),
+                        k => ctx.violation(
+                            "C34:server-slice-wrong",
+                            format!("server answered one chunk request with {k} chunk fields"),
+                            tr,
+                        ),
                     }
                 }
             }
         }
     });
-    ctx.set("wire_requests_answered_exact", exact.load(Ordering::Relaxed));
-    ctx.set("wire_requests_answered_without_chunk", without.load(Ordering::Relaxed));
+    ctx.set(
+        "wire_requests_answered_exact",
+        exact.load(Ordering::Relaxed),
+    );
+    ctx.set(
+        "wire_requests_answered_without_chunk",
+        without.load(Ordering::Relaxed),
+    );
     ctx.set("wire_requests_ignored", ignored.load(Ordering::Relaxed));
 }
 
@@ -1084,13 +1396,21 @@ fn replay(ctx: &Ctx, trace: &str) -> String {
             let polls: usize = p.get(1).and_then(|s| s.parse().ok()).unwrap_or(36);
             let devs: Vec<(usize, u8)> = p
                 .get(2)
-                .map(|s| s.split(',').filter_map(|d| d.split_once(':')).filter_map(|(a, b)| Some((a.parse().ok()?, b.parse().ok()?))).collect())
+                .map(|s| {
+                    s.split(',')
+                        .filter_map(|d| d.split_once(':'))
+                        .filter_map(|(a, b)| Some((a.parse().ok()?, b.parse().ok()?)))
+                        .collect()
+                })
                 .unwrap_or_default();
             super::block_on_paused(async { run_e2e(ctx, &devs, polls) })
         }
         "N" => {
             let cs: u16 = p.get(1).and_then(|s| s.parse().ok()).unwrap_or(0);
-            format!("new({cs}) = {:?}", common::catch(|| RemoteBloomFilter::new(cs).is_some()))
+            format!(
+                "new({cs}) = {:?}",
+                common::catch(|| RemoteBloomFilter::new(cs).is_some())
+            )
         }
         "T" => {
             let len: usize = p.get(1).and_then(|s| s.parse().ok()).unwrap_or(0);
@@ -1098,18 +1418,37 @@ fn replay(ctx: &Ctx, trace: &str) -> String {
             let filter = pb::filter_from_bytes(synthetic_bytes());
             let mut msg = vec![0u8; len.max(2)];
             msg[0..2].copy_from_slice(&off.to_be_bytes());
-            let r = common::catch(|| ReferenceIdRequest::decode(&msg).ok().map(|r| r.to_response(&filter).map(|x| x.bytes().to_vec())));
-            let want = if off as usize + len <= 512 { Some(synthetic_bytes()[off as usize..off as usize + len].to_vec()) } else { None };
+            let r = common::catch(|| {
+                ReferenceIdRequest::decode(&msg)
+                    .ok()
+                    .map(|r| r.to_response(&filter).map(|x| x.bytes().to_vec()))
+            });
+            let want = if off as usize + len <= 512 {
+                Some(synthetic_bytes()[off as usize..off as usize + len].to_vec())
+            } else {
+                None
+            };
             if r != Ok(Some(want.clone())) {
-                ctx.violation("C34:server-slice-wrong", format!("offset {off} length {len}"), trace);
+                ctx.violation(
+                    "C34:server-slice-wrong",
+                    format!("offset {off} length {len}"),
+                    trace,
+                );
             }
-            format!("got={:?} want={:?}", r.map(|x| x.map(|y| y.map(|z| z.len()))), want.map(|w| w.len()))
+            format!(
+                "got={:?} want={:?}",
+                r.map(|x| x.map(|y| y.map(|z| z.len()))),
+                want.map(|w| w.len())
+            )
         }
         _ => {
             // M, P, G, W: re-run the (cheap) whole part deterministically
             part_membership(ctx);
             part_server_wire(ctx);
-            format!("membership + wire parts re-run, violations={}", ctx.violation_count())
+            format!(
+                "membership + wire parts re-run, violations={}",
+                ctx.violation_count()
+            )
         }
     }
 }
